@@ -16,3 +16,9 @@ Extraction "extracted/model.ml"
   Cnf.parse_dimacs Cnf.parse_log Cnf.lrs_init
   Consts.max_dimacs_i8 Consts.max_dimacs_i16 Consts.max_dimacs_i32 Consts.max_dimacs_i64 Consts.max_dimacs_isize
   Z.add N.add N.mul N.sub N.div_eucl N.eqb N.ltb N.leb N.of_nat N.to_nat.
+
+(* C12: the renumbering model goes into its own OCaml module (std++ brings its own [map], [rev], ...
+   and would otherwise shift the names the other streams' drivers use). *)
+From Flussab Require Import Aig Renumber.
+Extraction "extracted/model_rn.ml"
+  Renumber.renumber_aig Aig.aig_of_ordered Aig.lm_get Renumber.r_map.
